@@ -1126,7 +1126,7 @@ func runC19(tier string) int {
 	c := &c19{run: run, bin: bin, rejected: map[string]int{}}
 	nprog, reps, nvars := 6, 3, 2
 	if run.Thorough() {
-		nprog, reps, nvars = 100, 10, 3
+		nprog, reps, nvars = 50, 10, 3 // 100 programs cost 450 CPU-minutes once the directory-name variations were added
 	}
 	tgts := targets()
 	base := filepath.Join(ev.ScratchDir(), "c19")
